@@ -5,6 +5,7 @@
   (JS/Generated/Tables.lean), so the table theorems are re-checked against what the code says now.
 -/
 import JS.Proofs.Inert
+import JS.Proofs.InertNested
 namespace JS.Props.C10
 open JS
 
@@ -145,5 +146,132 @@ theorem other_id_spelling_unknown :
     ∧ skey "$id" ≠ (Draft.d3).idKey ∧ skey "$id" ≠ (Draft.d4).idKey
     ∧ skey "id" ≠ (Draft.d6).idKey ∧ skey "id" ≠ (Draft.d7).idKey := by
   decide +kernel
+
+/-! ### Insertion at ANY subschema position, at any depth
+
+`unknown_inert` is about the keys of one schema object, for an arbitrary behaviour of the
+subschemas. The property quantifies over insertions at every position of a schema: `Spec.Ins d s s'`
+(JS.Spec.Insertion) says that `s'` is `s` with keys foreign to draft `d` (`Spec.Inert`) inserted into
+schema objects at any depth — the value of a member being a schema, an array of schemas or a map
+of schemas as the draft says, everything else being data that is left alone. For reference-free
+`s` the whole evaluation is then unchanged, up to what such insertions necessarily change in an
+error: renderings of schema text (messages), the recorded keyword value and enclosing schema
+(`Spec.eraseDeep`). Keyword, recorded instance, both paths, causes, the shape of the context tree,
+the way of stopping and the resolver state are identical, for every instance, fuel, budget, state
+and format checker. -/
+
+theorem nested_unknown_inert (d : Draft) (fc : Option FormatChecker) (env : Env) (impl : FmtImpl)
+    (s s' : Json) (h : Spec.Ins d s s') (hnr : Spec.noRef s = true)
+    (fuel : Nat) (inst : Json) (b : Option Nat) (st : RState) :
+    ((eval env impl (d.cfg fc) fuel inst s' b st).errs.map Spec.eraseDeep
+        = (eval env impl (d.cfg fc) fuel inst s b st).errs.map Spec.eraseDeep)
+    ∧ (eval env impl (d.cfg fc) fuel inst s' b st).stop = (eval env impl (d.cfg fc) fuel inst s b st).stop
+    ∧ (eval env impl (d.cfg fc) fuel inst s' b st).st = (eval env impl (d.cfg fc) fuel inst s b st).st := by
+  have hsim := Nested.eval_recRel d env impl fc fuel inst s s' ⟨h, hnr⟩ b st
+  exact ⟨hsim.1.symm, hsim.2.1.symm, hsim.2.2.symm⟩
+
+/-- … in particular the verdict -/
+theorem nested_unknown_inert_verdict (d : Draft) (fc : Option FormatChecker) (env : Env) (impl : FmtImpl)
+    (s s' : Json) (h : Spec.Ins d s s') (hnr : Spec.noRef s = true)
+    (fuel : Nat) (inst : Json) (st : RState) :
+    (isValid (eval env impl (d.cfg fc) fuel inst s') st).1 = (isValid (eval env impl (d.cfg fc) fuel inst s) st).1 := by
+  have key := nested_unknown_inert d fc env impl s s' h hnr fuel inst (some 1) st
+  unfold isValid
+  revert key
+  generalize eval env impl (d.cfg fc) fuel inst s' (some 1) st = o'
+  generalize eval env impl (d.cfg fc) fuel inst s (some 1) st = o
+  rintro ⟨he, hs, _⟩
+  obtain ⟨es', stop', st'⟩ := o'
+  obtain ⟨es, stop, st0⟩ := o
+  dsimp only at he hs
+  subst hs
+  cases es' with
+  | nil =>
+    cases es with
+    | nil => cases stop' <;> rfl
+    | cons e es => simp at he
+  | cons e' es' =>
+    cases es with
+    | nil => simp at he
+    | cons e es => rfl
+
+/-- the later specifications' keywords (2019-09, 2020-12) are inert in every draft modelled here -/
+theorem later_keywords_inert (d : Draft) :
+    ∀ kw ∈ ["minContains", "maxContains", "unevaluatedItems", "unevaluatedProperties", "dependentRequired",
+             "dependentSchemas", "prefixItems", "$anchor", "$recursiveRef", "$recursiveAnchor", "$dynamicRef",
+             "$dynamicAnchor", "$defs", "$vocabulary", "contentSchema", "deprecated", "writeOnly",
+             "title", "description", "default", "examples", "$comment", "definitions"],
+      Spec.Inert d (Spec.k kw) := by
+  unfold Spec.Inert
+  cases d <;> decide +kernel
+
+/-! ### the nested statement is not vacuous
+
+Draft 7, two levels of nesting: `{"properties": {"a": {"items": {"type": "integer"}}}, "not": {"maxLength": 2}}`
+and the same schema with foreign keys inserted at three depths: `x-note` at the top and inside `not`,
+`unevaluatedItems` inside the property subschema, `minContains` inside its `items` subschema. -/
+
+namespace NonVacuous
+open Spec
+
+def s : Json :=
+  .obj [(k "properties", .obj [(k "a", .obj [(k "items", .obj [(k "type", .str (k "integer"))])])]),
+        (k "not", .obj [(k "maxLength", .num (.int 2))])]
+
+def s' : Json :=
+  .obj [(k "x-note", .num (.int 1)),
+        (k "properties", .obj [(k "a", .obj [(k "unevaluatedItems", .bool false),
+            (k "items", .obj [(k "type", .str (k "integer")), (k "minContains", .num (.int 3))])])]),
+        (k "not", .obj [(k "maxLength", .num (.int 2)), (k "x-note", .str (k "deep"))])]
+
+theorem xnote_inert : Inert .d7 (k "x-note") := by
+  unfold Inert; decide +kernel
+
+theorem ins : Ins .d7 s s' :=
+  .obj <|
+    .insert (k "x-note") _ xnote_inert <|
+    .keep (k "properties") _ _
+      (.schemaMap _ _ _ (by decide +kernel) <|
+        .cons (k "a") _ _
+          (.obj <|
+            .insert (k "unevaluatedItems") _ (later_keywords_inert .d7 "unevaluatedItems" (by decide)) <|
+            .keep (k "items") _ _
+              (.schema _ _ _ (by decide +kernel) <| .obj <|
+                .keep (k "type") _ _ (.same _ _) <|
+                .insert (k "minContains") _ (later_keywords_inert .d7 "minContains" (by decide)) .nil)
+              .nil)
+          .nil) <|
+    .keep (k "not") _ _
+      (.schema _ _ _ (by decide +kernel) <| .obj <|
+        .keep (k "maxLength") _ _ (.same _ _) <|
+        .insert (k "x-note") _ xnote_inert .nil)
+      .nil
+
+theorem noRef_s : noRef s = true := by decide +kernel
+
+/-- the two schemas are different, and evaluate alike on every instance, with or without formats -/
+example : s ≠ s' := by decide +kernel
+
+example (fc : Option FormatChecker) (env : Env) (impl : FmtImpl) (fuel : Nat) (inst : Json) (b : Option Nat)
+    (st : RState) :
+    ((eval env impl (Draft.d7.cfg fc) fuel inst s' b st).errs.map eraseDeep
+        = (eval env impl (Draft.d7.cfg fc) fuel inst s b st).errs.map eraseDeep)
+    ∧ (eval env impl (Draft.d7.cfg fc) fuel inst s' b st).stop = (eval env impl (Draft.d7.cfg fc) fuel inst s b st).stop
+    ∧ (eval env impl (Draft.d7.cfg fc) fuel inst s' b st).st = (eval env impl (Draft.d7.cfg fc) fuel inst s b st).st :=
+  nested_unknown_inert .d7 fc env impl s s' ins noRef_s fuel inst b st
+
+/-- and the evaluation in question does report errors: `{"a": ["x"]}` violates the nested `type`
+    (a string item) and the `not` (an object is no long string) — two errors on both sides, recorded
+    with different schemas -/
+def inst : Json := .obj [(k "a", .arr [.str (k "x")])]
+
+example :
+    (eval RefCex.env RefCex.impl (Draft.d7.cfg none) 5 inst s none RefCex.st).errs.length = 2
+    ∧ (eval RefCex.env RefCex.impl (Draft.d7.cfg none) 5 inst s' none RefCex.st).errs.length = 2
+    ∧ (eval RefCex.env RefCex.impl (Draft.d7.cfg none) 5 inst s' none RefCex.st).errs.map (·.info.map (·.schema))
+        ≠ (eval RefCex.env RefCex.impl (Draft.d7.cfg none) 5 inst s none RefCex.st).errs.map (·.info.map (·.schema)) := by
+  decide +kernel
+
+end NonVacuous
 
 end JS.Props.C10
